@@ -1216,7 +1216,55 @@ def b_chr(ip, st, n):
         _raise(ValueError, str(ex))
 
 
+class SeqIter(ModelObj):
+    """`iter(x)` for a sequence value x (tuple, list, range, reversed(...), str ...): CPython's sequence iterator -- a
+    position that starts at 0; `next(it)` hands out x[position] and advances while position < len(x) (for a list: its
+    length at that moment, the iterator is live), else raises StopIteration (or returns the default given) and the
+    iterator stays exhausted.  Only `next()` and `iter(it) is it` are modelled (a `for` over a partly consumed iterator is
+    not).  Cross-check against CPython: spec/xcheck_cases.py x_iter_next."""
+
+    def __init__(self, seq):
+        self.seq = seq
+        self.pos = 0
+        self.done = False
+
+    def next(self, ip, st, default=()):
+        n = Q.seq_len(self.seq)
+        more = False if self.done else (self.pos < n if isinstance(n, int) and isinstance(self.pos, int) else st.branch(V._cmp("<", self.pos, n)))
+        if more:
+            v = ip._iter_elem(self.seq, self.pos)
+            self.pos = self.pos + 1
+            return v
+        self.done = True
+        if default:
+            return default[0]
+        raise PyRaise(SExc(StopIteration, (), site="builtin next"))
+
+    def py_call(self, ip, st, name, args, kwargs):
+        if name == "__next__" and not args and not kwargs:
+            return self.next(ip, st)
+        if name == "__iter__" and not args and not kwargs:
+            return self
+        raise Unsupported(f"method {name} of a sequence iterator")
+
+
+def b_iter(ip, st, x, *sentinel):
+    if sentinel:
+        raise Unsupported("iter(callable, sentinel)")
+    x = st.force(x)
+    if isinstance(x, SeqIter):
+        return x
+    if isinstance(x, ModelObj):
+        raise Unsupported(f"iter() of {type(x).__name__}")
+    v = ip.iter_view(st, x)
+    if not (isinstance(v, (tuple, SSeq, SRange, LRef)) or getattr(v, "is_text", False)):
+        raise Unsupported(f"iter() of {type(v).__name__}")
+    return SeqIter(v)
+
+
 def b_next(ip, st, it, *default):
+    if isinstance(it, SeqIter):
+        return it.next(ip, st, default)
     if isinstance(it, ModelObj):
         return it.py_call(ip, st, "__next__", [], {})
     raise Unsupported("next() of a non-model iterator")
@@ -1289,6 +1337,7 @@ TABLE = {
     contextlib.suppress: b_suppress,
     setattr: b_setattr,
     next: b_next,
+    iter: b_iter,
     __import__("itertools").chain: b_chain,
     functools.wraps: b_wraps,
 }
